@@ -390,7 +390,8 @@ def ident_dedup(prog: Program) -> RuleResult:
     starts = []
     for c in prog.subclasses(se.qual):
         for nm in ("_evaluate__", "evaluate"):
-            m = c.methods.get(nm)
+            # every concrete class as receiver of the method it inherits: self._apply_mapping_ of a Flatten is Flatten's
+            m = prog.lookup(c.qual, nm)
             if m is not None:
                 starts.append((m, c.qual))
     ev = {f for f, _ in closure(prog, starts) if ".entity_query_language." in f.qual}
@@ -424,6 +425,10 @@ def _raw_value_tests(f):
         if isinstance(n, ast.Assign) and len(n.targets) == 1 and isinstance(n.targets[0], ast.Name):
             if _is_unwrapped(n.value, raw):
                 raw.add(n.targets[0].id)
+    # the elements of an unwrapped collection are unwrapped values too: for inner in <value>.value
+    for n in walk_local(f.node):
+        if isinstance(n, (ast.For, ast.comprehension)) and isinstance(n.target, ast.Name) and _is_unwrapped(n.iter, raw):
+            raw.add(n.target.id)
     raw_containers: Set[str] = set()
     for n in walk_local(f.node):
         if isinstance(n, ast.Call) and isinstance(n.func, ast.Attribute) and n.func.attr in ("append", "add") and isinstance(n.func.value, ast.Name) and n.args and _is_unwrapped(n.args[0], raw):
@@ -446,6 +451,13 @@ def _is_unwrapped(e, raw: Set[str]) -> bool:
     if isinstance(e, ast.Attribute) and e.attr == "value" and not (isinstance(e.value, ast.Name) and e.value.id == "self"):
         return True
     if isinstance(e, ast.Name) and e.id in raw:
+        return True
+    # a row of unwrapped values: [r[v._id_].value for v in ...], (a.value, b.value)
+    if isinstance(e, (ast.ListComp, ast.GeneratorExp, ast.SetComp)) and _is_unwrapped(e.elt, raw):
+        return True
+    if isinstance(e, (ast.Tuple, ast.List)) and e.elts and all(_is_unwrapped(x, raw) for x in e.elts):
+        return True
+    if isinstance(e, ast.Call) and isinstance(e.func, ast.Name) and e.func.id in ("tuple", "list") and e.args and _is_unwrapped(e.args[0], raw):
         return True
     return False
 
